@@ -231,7 +231,9 @@ def tasks_c13(tier, seed):
 
 
 def tasks_c14(tier, seed):
-    return seq("c13", tier, shards=12) + seq("c14h", tier, shards=4)
+    if tier == "quick":
+        return seq("c13", tier, shards=12) + seq("c14h", tier, shards=4)
+    return seq("c13", tier, shards=16) + seq("c14h", tier, shards=8)
 
 
 def IX_TASKS(tier):
